@@ -1,12 +1,21 @@
 """Replay of spec/Alg.tla states (one public operation on canonical integer operands) against torchtt.
 For every state: build the operands with the model's fill, perform the call through the public API,
-project the result with the harness's own contraction and compare with the TLC-computed outcome."""
+project the result with the harness's own contraction and compare with the TLC-computed outcome.
+
+Deviation classes and the property they are attributed to:
+  value / ranks / shape / dtype / kind / full / exception(status must)  -> the property owning the op family
+  operand-changed                                                        -> C06
+  ill-formed (operand or result)                                         -> C05
+"""
 import numpy as np
 import torch
 
 from . import fill, project
 
 LIB_EXC = ("ShapeMismatch", "RankMismatch", "IncompatibleTypes", "InvalidArguments", "NotImplementedError")
+NONE = 99
+ROUNDOFF = {torch.float64: 1e-11, torch.complex128: 1e-11, torch.float32: 2e-4, torch.complex64: 2e-4}
+TRACKABLE = {"norm2", "norm", "sum_all", "sum_axes", "dot", "dot_axes", "bilinear"}
 
 
 def _tt():
@@ -33,7 +42,7 @@ def scalar_value(s, dt):
 
 
 def expected_dense(res, dt):
-    re = np.array(res["re"], dtype=np.float64).reshape(res["sh"]) if len(res["sh"]) else np.array(res["re"], dtype=np.float64).reshape(())
+    re = np.array(res["re"], dtype=np.float64).reshape(list(res["sh"]))
     if dt.is_complex:
         im = np.array(res["im"], dtype=np.float64).reshape(re.shape)
         return torch.tensor(re + 1j * im, dtype=dt)
@@ -44,9 +53,8 @@ def snapshot(objs):
     """bitwise snapshot of operands for the C06 comparison"""
     snap = []
     for o in objs:
-        snap.append({"cores": [c.detach().clone() for c in o.cores], "ver": project.versions(o.cores),
-                     "N": list(o.N), "R": list(o.R), "ttm": o.is_ttm, "M": list(o.M) if o.is_ttm else [],
-                     "ids": [id(c) for c in o.cores], "dt": [c.dtype for c in o.cores]})
+        snap.append({"cores": [c.detach().clone() for c in o.cores], "N": list(o.N), "R": list(o.R), "ttm": o.is_ttm,
+                     "M": list(o.M) if o.is_ttm else [], "ver": project.versions(o.cores)})
     return snap
 
 
@@ -62,26 +70,50 @@ def changed(objs, snap):
                     why.append("core %d shape/dtype %s %s -> %s %s" % (k, tuple(c0.shape), c0.dtype, tuple(c.shape), c.dtype))
                 elif not torch.equal(c.detach(), c0):
                     why.append("core %d value changed (max |diff| %.3g)" % (k, (c.detach() - c0).abs().max().item()))
-        if list(o.N) != s["N"] or list(o.R) != s["R"] or o.is_ttm != s["ttm"]:
-            why.append("metadata N/R %s %s -> %s %s" % (s["N"], s["R"], o.N, o.R))
+        try:
+            if list(o.N) != s["N"] or list(o.R) != s["R"] or o.is_ttm != s["ttm"]:
+                why.append("metadata N/R %s %s -> %s %s" % (s["N"], s["R"], o.N, o.R))
+        except Exception as e:  # noqa
+            why.append("metadata unreadable: %s" % e)
         if why:
             out.append((n, why))
     return out
 
 
+def py_index(e):
+    items = []
+    for it in e:
+        t = it["t"]
+        if t == "i":
+            items.append(int(it["v"]))
+        elif t == "s":
+            items.append(slice(None if it["lo"] == NONE else it["lo"], None if it["hi"] == NONE else it["hi"],
+                               None if it["st"] == 1 and it["lo"] == NONE and it["hi"] == NONE else it["st"]))
+        elif t == "n":
+            items.append(None)
+        elif t == "e":
+            items.append(Ellipsis)
+    return tuple(items)
+
+
 # ------------------------------------------------------------------ the calls
-def perform(case, real):
-    """returns (operands list, thunk) - the thunk performs the public call"""
+def variants(case, real, opts):
+    """list of (label, operands, thunk, dtype, scalar) - each thunk performs the public call once"""
     tt = _tt()
     op = case["op"]
-    X = build(case["x"], real)
-    dt = X.cores[0].dtype
-    if "y" in case and isinstance(case["y"], dict) and "I" in case["y"]:
-        Y = build(case["y"], real)
-    else:
-        Y = None
+    out = []
+
+    def mk():
+        X = build(case["x"], real)
+        dt = X.cores[0].dtype
+        Y = build(case["y"], real) if isinstance(case.get("y"), dict) and "I" in case["y"] else None
+        Z = build(case["z"], real) if isinstance(case.get("z"), dict) and "I" in case["z"] else None
+        return X, Y, Z, dt
+
+    X, Y, Z, dt = mk()
     s = scalar_value(case["s"], dt) if "s" in case else None
-    ops = [o for o in (X, Y) if o is not None]
+    ops = [o for o in (X, Y, Z) if o is not None]
+    S = case["x"]
     table = {
         "add": lambda: X + Y, "sub": lambda: X - Y, "mul": lambda: X * Y,
         "add_rev": lambda: X + Y, "sub_rev": lambda: X - Y, "mul_rev": lambda: X * Y,
@@ -92,20 +124,99 @@ def perform(case, real):
         "mul_s": lambda: X * s, "rmul_s": lambda: s * X, "div_s": lambda: X / s,
         "kron": lambda: X ** Y,
         "matvec": lambda: X @ Y, "vecmat": lambda: X @ Y, "matmat": lambda: X @ Y,
+        "norm2": lambda: X.norm(True), "norm": lambda: X.norm(), "sum_all": lambda: X.sum(),
+        "dot": lambda: tt.dot(X, Y), "bilinear": lambda: tt.bilinear_form(Y, X, Z),
     }
-    if op == "matdense":
-        D = fill.dense_fill(list(case["bsh"]) + list(case["x"]["J"]), case["f"], case["x"]["cx"], dt)
-        return ops, (lambda: X @ D), dt, s
-    if op == "kron" and case.get("via") == "fn":
-        return ops, (lambda: tt.kron(X, Y)), dt, s
-    return ops, table[op], dt, s
+    if op in table:
+        out.append(("", ops, table[op], dt, s))
+        if op == "kron":
+            out.append(("fn", ops, lambda: tt.kron(X, Y), dt, s))
+        if op == "kron_none":
+            out.append(("fn", ops, lambda: tt.kron(X, None), dt, s))
+            out.append(("fn-left", ops, lambda: tt.kron(None, X), dt, s))
+    elif op == "matdense":
+        D = fill.dense_fill(list(case["bsh"]) + list(S["J"]), case["f"], S["cx"], dt)
+        out.append(("", ops, lambda: X @ D, dt, s))
+    elif op == "sum_axes":
+        ax = [a - 1 for a in case["axes"]]
+        out.append(("list", ops, lambda: X.sum(ax), dt, s))
+        if len(ax) == 1:
+            out.append(("int", ops, lambda: X.sum(ax[0]), dt, s))
+    elif op == "dot_axes":
+        ax = [a - 1 for a in case["axes"]]
+        out.append(("", ops, lambda: tt.dot(X, Y, ax), dt, s))
+    elif op == "index":
+        ix = py_index(case["e"])
+        out.append(("tuple", ops, lambda: X[ix], dt, s))
+        if len(ix) == 1:
+            out.append(("bare", ops, lambda: X[ix[0]], dt, s))
+    elif op == "index_m":
+        ix = py_index(case["e"])
+        out.append(("tuple", ops, lambda: X[ix], dt, s))
+    elif op == "apply_mask":
+        rows = torch.tensor([[v - 1 for v in r] for r in case["rows"]], dtype=torch.int64)
+        out.append(("", ops, lambda: X.apply_mask(rows), dt, s))
+    elif op == "cat":
+        out.append(("tuple", ops, lambda: tt.cat((X, Y), case["ax"] - 1), dt, s))
+        out.append(("list", ops, lambda: tt.cat([X, Y], case["ax"] - 1), dt, s))
+    elif op == "cat3":
+        out.append(("", ops, lambda: tt.cat((X, Y, Z), case["ax"] - 1), dt, s))
+    elif op in ("pad", "pad_m"):
+        w = tuple((int(a), int(b)) for a, b in case["w"])
+        out.append(("", ops, lambda: tt.pad(X, w, value=float(case["val"])), dt, s))
+    elif op == "mprod":
+        modes = [m - 1 for m in case["modes"]]
+        mats = [fill.dense_fill([(S["I"][m] % 3) + 1, S["I"][m]], S["f"] + m + 2, S["cx"], dt) for m in modes]
+        if case["aslist"]:
+            out.append(("list", ops, lambda: X.mprod(mats, modes), dt, s))
+        else:
+            out.append(("single", ops, lambda: X.mprod(mats[0], modes[0]), dt, s))
+    elif op in ("ones", "zeros"):
+        shp = [int(n) for n in S["I"]] if S["k"] == "tt" else [(int(m), int(n)) for m, n in zip(S["I"], S["J"])]
+        fn = tt.ones if op == "ones" else tt.zeros
+        out.append(("", [], lambda: fn(shp, dtype=dt), dt, s))
+    elif op == "eye":
+        out.append(("", [], lambda: tt.eye([int(n) for n in S["I"]], dtype=dt), dt, s))
+    elif op == "rank1":
+        vs = [fill.dense_fill([S["I"][p]], S["f"] + p + 1, S["cx"], dt) for p in range(len(S["I"]))]
+        out.append(("", [], lambda: tt.rank1TT(vs), dt, s))
+    elif op == "meshgrid":
+        vs = [fill.dense_fill([S["I"][p]], S["f"] + p + 1, S["cx"], dt) for p in range(len(S["I"]))]
+        out.append(("", [], lambda: tt.meshgrid(vs)[case["q"] - 1], dt, s))
+    else:
+        raise ValueError("no binding for model operation %r" % op)
+    if op in TRACKABLE and opts.get("tracked", True):
+        # the same calls with autograd tracking switched on for every operand (other code path in norm)
+        X2, Y2, Z2, _ = mk()
+        for o in (X2, Y2, Z2):
+            if o is not None:
+                tt.grad.watch(o)
+        ops2 = [o for o in (X2, Y2, Z2) if o is not None]
+        t2 = {"norm2": lambda: X2.norm(True), "norm": lambda: X2.norm(), "sum_all": lambda: X2.sum(),
+              "dot": lambda: tt.dot(X2, Y2), "bilinear": lambda: tt.bilinear_form(Y2, X2, Z2),
+              "sum_axes": lambda: X2.sum([a - 1 for a in case["axes"]]),
+              "dot_axes": lambda: tt.dot(X2, Y2, [a - 1 for a in case["axes"]])}[op]
+        out.append(("tracked", ops2, t2, dt, s))
+    return out
 
 
 def key_of(case, cls, extra=None):
-    k = {"op": case["op"], "cls": cls, "kind": case["x"]["k"], "order": len(case["x"]["I"]), "cx": case["x"]["cx"]}
+    x = case["x"]
+    k = {"op": case["op"], "cls": cls, "kind": x["k"], "order": len(x["I"]), "cx": x["cx"],
+         "has1": 1 in x["I"] or (x["k"] == "ttm" and 1 in x["J"])}
     if "s" in case:
         k["scalar"] = case["s"]["kind"]
         k["szero"] = case["s"]["re"] == 0 and case["s"]["im"] == 0
+    if "val" in case:
+        k["valnz"] = case["val"] != 0
+        k["npad"] = len(case["w"])
+        k["rank1"] = max(x["R"]) == 1
+    if "e" in case:
+        ts = [it["t"] for it in case["e"]]
+        k["has_int"] = "i" in ts
+        k["has_none"] = "n" in ts
+        k["has_ell"] = "e" in ts
+        k["nitems"] = len(ts)
     if extra:
         k.update(extra)
     return k
@@ -121,8 +232,9 @@ def handler(st, opts):
         reals = ["f64"]
     problems, stats = [], {}
     for real in reals:
-        problems += run_one(case, res, real, prop, stats)
-    sample = {"case": case, "expected": {k: res[k] for k in ("t", "d", "sh", "status") if k in res}}
+        problems += run_one(case, res, real, prop, stats, opts)
+    stats["behaviours"] = 1
+    sample = {"case": case, "expected": {k: res[k] for k in ("t", "d", "sh", "status", "re") if k in res}}
     return {"problems": problems, "stats": stats, "sample": sample}
 
 
@@ -135,31 +247,40 @@ def nontrivial(case):
     return len(x["I"]) >= 2 and (max(x["R"]) >= 2 or ("y" in case and isinstance(case["y"], dict) and case["y"].get("I") != x["I"]))
 
 
-def run_one(case, res, real, prop, stats):
-    problems = _run_one(case, res, real, prop, stats)
-    for p in problems:
-        p["replay"] = {"case": case, "res": res}
+def run_one(case, res, real, prop, stats, opts=None):
+    problems = []
+    if real == "f64" and nontrivial(case):
+        stats["nontrivial"] = stats.get("nontrivial", 0) + 1
+    for label, ops, thunk, dt, s in variants(case, real, opts or {}):
+        ps = _run_variant(case, res, real, prop, stats, label, ops, thunk, dt, s)
+        for p in ps:
+            p["variant"] = label
+            p["key"]["variant"] = label
+            p["replay"] = {"case": case, "res": res}
+        problems += ps
     return problems
 
 
-def _run_one(case, res, real, prop, stats):
+def _close(got, exp, dt, tol):
+    if tol == "exact":
+        return torch.equal(got, exp)
+    eps = ROUNDOFF[dt]
+    scale = max(1.0, float(exp.abs().max().item()) if exp.numel() else 1.0)
+    return bool(((got - exp).abs().max() <= eps * scale * 10).item()) if exp.numel() else True
+
+
+def _run_variant(case, res, real, prop, stats, label, ops, thunk, dt, s):
     problems = []
-    ops, thunk, dt, s = perform(case, real)
     snap = snapshot(ops)
     stats["calls"] = stats.get("calls", 0) + 1
-    if real == "f64" and nontrivial(case):
-        stats["nontrivial"] = stats.get("nontrivial", 0) + 1
     stats["op:" + case["op"]] = stats.get("op:" + case["op"], 0) + 1
     try:
         out = thunk()
         exc = None
     except Exception as e:   # noqa
         out, exc = None, e
-    # ---- C06: operands untouched, whatever the outcome
     for n, why in changed(ops, snap):
-        problems.append(P("C06", "operand-changed", case, "operand %d changed by %s: %s" % (n, case["op"], "; ".join(why)), real,
-                          {"operand": n}))
-    # ---- C05: operands still well formed
+        problems.append(P("C06", "operand-changed", case, "operand %d changed by %s: %s" % (n, case["op"], "; ".join(why)), real, {"operand": n}))
     for n, o in enumerate(ops):
         pr = project.wf_problems(o)
         if pr:
@@ -174,23 +295,51 @@ def _run_one(case, res, real, prop, stats):
         return problems
     tt = _tt()
     t = res["t"]
+    tol = res.get("tol", "exact")
+    tracked = label == "tracked"
+    if t == "num":
+        if isinstance(out, tt.TT):
+            problems.append(P(prop, "kind", case, "expected a number, got a TT object with N=%s" % out.N, real))
+            return problems
+        if torch.is_tensor(out):
+            if out.dim() != 0:
+                problems.append(P(prop, "kind", case, "expected a scalar (0-d), got a tensor of shape %s" % list(out.shape), real))
+                if out.numel() != 1:
+                    return problems
+            v = complex(out.detach().reshape(-1)[0].item())
+        else:
+            try:
+                v = complex(out)
+            except Exception:   # noqa
+                problems.append(P(prop, "kind", case, "expected a number, got %s" % type(out).__name__, real))
+                return problems
+        e = complex(res["re"], res["im"])
+        if case["op"] == "norm":
+            e = complex(abs(e) ** 0.5, 0)
+        exact = case["op"] not in ("norm",) and not (case["op"] == "norm2" and not tracked)
+        if exact:
+            ok = v == e
+        else:
+            ok = abs(v - e) <= ROUNDOFF[dt] * 10 * max(1.0, abs(e))
+        if not ok:
+            problems.append(P(prop, "value", case, "%s returned %r, dense value is %r" % (case["op"], v, e), real))
+        return problems
     exp = expected_dense(res, dt)
     if t == "dense":
         if not torch.is_tensor(out):
             problems.append(P(prop, "kind", case, "expected a dense tensor, got %s" % type(out).__name__, real))
             return problems
         if list(out.shape) != list(res["sh"]):
-            problems.append(P(prop, "shape", case, "dense shape %s, expected %s" % (list(out.shape), res["sh"]), real))
+            problems.append(P(prop, "shape", case, "dense shape %s, expected %s" % (list(out.shape), list(res["sh"])), real))
         elif out.dtype != dt:
             problems.append(P(prop, "dtype", case, "dtype %s, expected %s" % (out.dtype, dt), real))
-        elif not torch.equal(out, exp):
-            problems.append(P(prop, "value", case, "dense value differs, max |diff| %.3g" % (out - exp).abs().max().item(), real))
+        elif not torch.equal(out.detach(), exp):
+            problems.append(P(prop, "value", case, "dense value differs, max |diff| %.3g" % (out.detach() - exp).abs().max().item(), real))
         return problems
-    if t == "num":
-        return problems
-    # object results
+    # object results ("obj": ranks prescribed; "val": only kind, shape, value - ranks if the model gives R)
     if not isinstance(out, tt.TT):
-        problems.append(P(prop, "kind", case, "expected a TT object, got %s" % type(out).__name__, real))
+        what = "a tensor of shape %s" % list(out.shape) if torch.is_tensor(out) else type(out).__name__
+        problems.append(P(prop, "kind", case, "expected a TT object with shape %s, got %s" % (list(res["d"]["N"]), what), real))
         return problems
     wf = project.wf_problems(out)
     if wf:
@@ -199,10 +348,12 @@ def _run_one(case, res, real, prop, stats):
     d = project.derived_desc(out.cores)
     ed = res["d"]
     if d["k"] != ed["k"] or d["N"] != list(ed["N"]) or d["M"] != list(ed["M"]):
-        problems.append(P(prop, "shape", case, "result is %s N=%s M=%s, expected %s N=%s M=%s" % (d["k"], d["N"], d["M"], ed["k"], list(ed["N"]), list(ed["M"])), real))
+        problems.append(P(prop, "shape", case, "result is %s N=%s M=%s, expected %s N=%s M=%s" % (
+            d["k"], d["N"], d["M"], ed["k"], list(ed["N"]), list(ed["M"])), real))
         return problems
-    if t == "obj" and d["R"] != list(ed["R"]):
-        problems.append(P(prop, "ranks", case, "result ranks %s, documented law gives %s" % (d["R"], list(ed["R"])), real))
+    wantR = list(ed["R"]) if t == "obj" else (list(res["R"]) if "R" in res else None)
+    if wantR is not None and d["R"] != wantR:
+        problems.append(P(prop, "ranks", case, "result ranks %s, documented law gives %s" % (d["R"], wantR), real))
     dts = {c.dtype for c in out.cores}
     if dts != {dt}:
         problems.append(P(prop, "dtype", case, "result dtype %s, operands %s" % (dts, dt), real))
@@ -212,15 +363,17 @@ def _run_one(case, res, real, prop, stats):
     got = got.to(dt) if got.dtype != dt else got
     if list(got.shape) != list(exp.shape):
         problems.append(P(prop, "shape", case, "dense shape %s expected %s" % (list(got.shape), list(exp.shape)), real))
-    elif not torch.equal(got, exp):
-        problems.append(P(prop, "value", case, "dense value differs from the model: max |diff| %.6g (|expected| max %.6g)" % ((got - exp).abs().max().item(), exp.abs().max().item()), real))
-    # full() separately against the harness contraction
+    elif not _close(got, exp, dt, tol):
+        problems.append(P(prop, "value", case, "dense value differs from the model: max |diff| %.6g (|expected| max %.6g)" % (
+            (got - exp).abs().max().item(), exp.abs().max().item()), real))
     try:
-        f = out.full()
-        g2 = project.dense(out.cores)
-        if list(f.shape) != list(g2.shape) or not torch.equal(f, g2):
+        f = out.full().detach()
+        if list(f.shape) != list(got.shape) or not torch.equal(f, project.dense(out.cores)):
             problems.append(P(prop, "full", case, "full() disagrees with the contraction of the result's own cores", real))
     except Exception as e:  # noqa
         problems.append(P(prop, "full", case, "full() of the result raised %s: %s" % (type(e).__name__, e), real))
-    # C06: result must not alias operand storage in a way that lets a later write through... (recorded as stat only)
     return problems
+
+
+def rerun(payload):
+    return run_one(payload["case"], payload["res"], payload.get("dtype", "f64"), payload.get("prop", "C03"), {}, {})
